@@ -49,8 +49,8 @@ PLANS = {
 }
 
 PLANS["C19"] = dict(engine=INO, mc=["MC_Recurse"],
-                    quick=[("recurse", 300, ""), ("recerr", 30, "")],
-                    thorough=[("recurse", 8000, ""), ("recerr", 400, "")])
+                    quick=[("recurse", 300, ""), ("recerr", 30, ""), ("tlcrec", 500, "k=3"), ("tlcrec", 600, "k=4")],
+                    thorough=[("recurse", 8000, ""), ("recerr", 400, ""), ("tlcrec", 5000, "k=4"), ("tlcrec", 12000, "k=5")])
 _KQ = dict(engine="kq", driver="kqrun", trace_spec="KqueueTrace", mc=["MC_Kq"],
            assumptions=["the kqueue backend is the working tree's source compiled on Linux against a simulated kqueue (harness/simkq/unix): real descriptors on a real "
                         "directory tree, NOTE_* raised per operation as FreeBSD's vop_*_post hooks do, all notes of one operation raised atomically",
